@@ -1,7 +1,7 @@
 (* C19 — the transcript judge is sound, and the model's own transcript always passes it. *)
-From Coq Require Import ZArith List Bool Lia.
+From Coq Require Import ZArith List Bool Lia Permutation.
 From Verif Require Import ConstPool.ConstPoolModel ConstPool.ConstPoolSpec ConstPool.ConstPoolLists ConstPool.ConstPoolInv
-  ConstPool.ConstPoolProofs ConstPool.ConstPoolJudge.
+  ConstPool.ConstPoolProofs ConstPool.ConstPoolPartition ConstPool.ConstPoolJudge.
 Import ListNotations.
 Local Open Scope Z_scope.
 
@@ -14,7 +14,8 @@ Definition Judged (tr : list entry) (img : list Z) (sz al mn : Z) : Prop :=
   Z.of_nat (length img) = sz /\
   (forall x, 0 <= x < sz -> (forall d s off, In (d, s, Ok off) tr -> ~ (off <= x < off + s)) -> nth (Z.to_nat x) img 0 = 0) /\
   ((exists d off, In (d, al, Ok off) tr) \/ (al = 0 /\ forall d s off, ~ In (d, s, Ok off) tr)) /\
-  (((exists d off, In (d, mn, Ok off) tr) /\ sz mod mn = 0 /\ 0 < mn <= al) \/ (mn = 0 /\ forall d s off, ~ In (d, s, Ok off) tr)).
+  (((exists d off, In (d, mn, Ok off) tr) /\ sz mod mn = 0 /\ 0 < mn <= al) \/ (mn = 0 /\ forall d s off, ~ In (d, s, Ok off) tr)) /\
+  sz <= 2 * total_len (nodup range_eq_dec (ok_ranges tr)).
 
 Lemma valid_sizeb_spec s : valid_sizeb s = true <-> valid_size s.
 Proof.
@@ -42,9 +43,9 @@ Qed.
 
 Theorem judge_sound tr img sz al mn : judge tr img sz al mn = true -> Judged tr img sz al mn.
 Proof.
-  unfold judge. rewrite !andb_true_iff. intros (((((H1 & H2) & H3) & H4) & H5) & H6).
+  unfold judge. rewrite !andb_true_iff. intros ((((((H0 & H1) & H2) & H3) & H4) & H5) & H6). apply Z.leb_le in H0.
   rewrite forallb_forall in H1, H2, H4. apply Z.eqb_eq in H3.
-  unfold Judged. split; [|split; [|split; [|split; [auto|split; [|split]]]]].
+  unfold Judged. split; [|split; [|split; [|split; [auto|split; [|split; [|split; [|exact H0]]]]]]].
   - intros d s off Hin. specialize (H1 _ Hin). simpl in H1.
     rewrite !andb_true_iff in H1. destruct H1 as ((((((A & B) & C) & D) & E) & F) & G).
     apply valid_sizeb_spec in A. apply Z.leb_le in B. apply Z.eqb_eq in C. apply Z.leb_le in D. apply Z.leb_le in E.
@@ -70,6 +71,33 @@ Proof.
     + left. rewrite !andb_true_iff in E. destruct E as (((E1 & E2) & E3) & E4).
       apply has_size_exists in E1. apply Z.eqb_eq in E2. apply Z.ltb_lt in E3. apply Z.leb_le in E4. auto.
     + right. apply andb_prop in E. destruct E as (E1 & E2). apply Z.eqb_eq in E1. split; auto. apply no_ok; auto.
+Qed.
+
+(* ---- total length of duplicate-free lists of ranges *)
+Lemma total_len_total l : total_len l = total l.
+Proof. reflexivity. Qed.
+
+Lemma total_incl (l : list (Z * Z)) : forall m, NoDup l -> NoDup m -> incl l m -> (forall r, In r m -> 0 <= snd r) -> total l <= total m.
+Proof.
+  induction l as [|a l IH]; intros m Nl Nm Inc Pos.
+  - simpl. clear - Pos. induction m; simpl; [lia|]. pose proof (Pos a (or_introl eq_refl)).
+    assert (0 <= total m) by (apply IHm; intros; apply Pos; right; auto). lia.
+  - inversion Nl; subst.
+    destruct (in_split a m (Inc a (or_introl eq_refl))) as (m1 & m2 & ->).
+    pose proof (NoDup_remove_1 _ _ _ Nm) as Nm'. pose proof (NoDup_remove_2 _ _ _ Nm) as Na.
+    assert (Inc' : incl l (m1 ++ m2)).
+    { intros x Hx. pose proof (Inc x (or_intror Hx)) as Hm. apply in_app_or in Hm. apply in_or_app.
+      destruct Hm as [Hm|[Hm|Hm]]; auto. subst x. contradiction. }
+    specialize (IH (m1 ++ m2) H2 Nm' Inc' ltac:(intros r Hr; apply Pos; apply in_app_or in Hr; apply in_or_app; simpl; tauto)).
+    rewrite total_app in *. simpl. lia.
+Qed.
+
+Lemma pairwise_disj_nodup (l : list (Z * Z)) : pairwise disj l -> (forall r, In r l -> 0 < snd r) -> NoDup l.
+Proof.
+  induction l as [|a l IH]; intros P Pos; constructor.
+  - simpl in P. destruct P as (F & _). rewrite Forall_forall in F. intros Hin.
+    specialize (F a Hin). pose proof (Pos a (or_introl eq_refl)). unfold disj in F. lia.
+  - apply IH; [apply P|]. intros; apply Pos; right; auto.
 Qed.
 
 (* ---- the model's own transcript passes *)
@@ -102,7 +130,26 @@ Proof.
     apply InOk in Hin. destruct Hin as (k & A). exfalso. eapply None; eauto. }
   assert (HasSz : forall k d z off, added cmds k d z off -> existsb (has_size z) (transcript cmds (results cmds)) = true).
   { intros k d z off A. apply existsb_exists. exists (d, z, Ok off). split; [apply InOk; eauto|]. simpl. apply Z.eqb_refl. }
-  unfold judge. rewrite !andb_true_iff. split; [split; [split; [split; [split|]|]|]|].
+  unfold judge. rewrite !andb_true_iff. split; [split; [split; [split; [split; [split|]|]|]|]|].
+  - (* size() <= 2 * total length of the distinct answered ranges, via C19_quirk_cost: size <= 2 * payload *)
+    apply Z.leb_le.
+    destruct (quirk_cost_thm cmds W G) as (_ & QB & _).
+    destruct (no_overlap_thm cmds W G) as (PWr & _ & Hist & _).
+    pose proof (final_spec cmds W G) as S. pose proof (sp_inv _ _ S) as I. fold (final cmds) in I.
+    assert (Pst : pairwise disj (flat_map stored (trees (final cmds)))) by (apply inv_stored_pairwise; auto).
+    assert (Pos : forall r, In r (flat_map stored (trees (final cmds))) -> 0 < snd r).
+    { intros r Hr. destruct (Hist r Hr) as (k & d & s & off & A & ->). simpl.
+      destruct (aligned_thm cmds k d s off W G A) as (V & _). destruct V as [->|[->|[->|[->|[->|[->| ->]]]]]]; lia. }
+    assert (Inc : incl (flat_map stored (trees (final cmds))) (nodup range_eq_dec (ok_ranges (transcript cmds (results cmds))))).
+    { intros r Hr. apply nodup_In. destruct (Hist r Hr) as (k & d & s & off & A & ->).
+      unfold ok_ranges. apply in_flat_map. exists (d, s, Ok off). split; [apply InOk; eauto|left; reflexivity]. }
+    assert (Pos2 : forall r, In r (nodup range_eq_dec (ok_ranges (transcript cmds (results cmds)))) -> 0 <= snd r).
+    { intros r Hr. apply nodup_In in Hr. unfold ok_ranges in Hr. apply in_flat_map in Hr. destruct Hr as (((d & s) & res) & Hin & Hr).
+      destruct res as [off|]; [|destruct Hr]. destruct Hr as [<-|[]]. simpl.
+      apply InOk in Hin. destruct Hin as (k & A). destruct (aligned_thm cmds k d s off W G A) as (V & _).
+      destruct V as [->|[->|[->|[->|[->|[->| ->]]]]]]; lia. }
+    pose proof (total_incl _ _ (pairwise_disj_nodup _ Pst Pos) (NoDup_nodup _ _) Inc Pos2) as TI.
+    rewrite total_len_total. unfold payload in QB. lia.
   - apply forallb_forall. intros ((d & s) & r) Hin. destruct r as [off|]; simpl.
     + apply InOk in Hin. destruct Hin as (k & A).
       destruct (aligned_thm cmds k d s off W G A) as (V & P & M).
@@ -143,3 +190,16 @@ Proof.
       * apply Z.ltb_lt; lia.
       * apply Z.leb_le; lia.
 Qed.
+
+(* ---- non-vacuity: the judge accepts a concrete observed transcript and rejects perturbed ones *)
+Definition ex_tr : list entry := [([1], 1, Ok 0); ([2; 3; 4; 5], 4, Ok 4); ([9; 9; 9], 3, InvalidArgument); ([7; 7], 2, Ok 2); ([1], 1, Ok 0)].
+Example judge_accepts_example : judge ex_tr [1; 0; 7; 7; 2; 3; 4; 5] 8 4 1 = true.
+Proof. vm_compute. reflexivity. Qed.
+Example judge_rejects_dirty_gap : judge ex_tr [1; 204; 7; 7; 2; 3; 4; 5] 8 4 1 = false.
+Proof. vm_compute. reflexivity. Qed.
+Example judge_rejects_misaligned : judge [([1], 1, Ok 0); ([7; 7], 2, Ok 1)] [1; 7; 7] 3 2 1 = false.
+Proof. vm_compute. reflexivity. Qed.
+Example judge_rejects_not_deduplicated : judge [([1], 1, Ok 0); ([1], 1, Ok 1)] [1; 1] 2 1 1 = false.
+Proof. vm_compute. reflexivity. Qed.
+Example judge_rejects_oversized_pool : judge [([1], 1, Ok 0); ([7; 7], 2, Ok 2)] [1; 0; 7; 7; 0; 0; 0; 0] 8 2 1 = false.
+Proof. vm_compute. reflexivity. Qed.
